@@ -147,7 +147,13 @@ type Pather struct {
 	single map[*ssa.Alloc]ssa.Value
 	// KeepConv keeps integer conversions visible as conv<T>(x)
 	KeepConv bool
+	// Loads, when set, gives the path-sensitive value of loads from address-taken
+	// locals (filled by the path walker); memoisation is then per path.
+	Loads map[*ssa.UnOp]string
 }
+
+// ResetMemo forgets memoised paths (used when the path-sensitive load map changes).
+func (p *Pather) ResetMemo() { p.memo = map[ssa.Value]string{} }
 
 func NewPather(fn *ssa.Function) *Pather {
 	p := &Pather{fn: fn, memo: map[ssa.Value]string{}, stack: map[ssa.Value]bool{}, single: map[*ssa.Alloc]ssa.Value{}}
@@ -233,6 +239,11 @@ func (p *Pather) path(v ssa.Value) string {
 	case *ssa.UnOp:
 		switch x.Op {
 		case token.MUL:
+			if p.Loads != nil {
+				if sv, ok := p.Loads[x]; ok {
+					return sv
+				}
+			}
 			if a, ok := x.X.(*ssa.Alloc); ok {
 				if sv, ok := p.single[a]; ok {
 					return p.Path(sv)
@@ -270,9 +281,33 @@ func (p *Pather) path(v ssa.Value) string {
 		if lo == "" && hi == "" {
 			return p.Path(x.X)
 		}
-		return p.Path(x.X) + "[" + lo + ":" + hi + "]"
+		// x[a:][b:] == x[a+b:]
+		if inner, ok := x.X.(*ssa.Slice); ok && x.High == nil && inner.High == nil && inner.Low != nil && x.Low != nil {
+			if a, okA := ConstInt(inner.Low); okA {
+				if b, okB := ConstInt(x.Low); okB {
+					return fmt.Sprintf("%s[%d:]", p.Path(inner.X), a+b)
+				}
+			}
+		}
+		base := p.Path(x.X)
+		if i := trailingOpenSlice(base); i >= 0 && x.High == nil {
+			if b, okB := ConstInt(x.Low); okB {
+				var a int64
+				fmt.Sscanf(base[i+1:], "%d:]", &a)
+				return fmt.Sprintf("%s[%d:]", base[:i], a+b)
+			}
+		}
+		return base + "[" + lo + ":" + hi + "]"
 	case *ssa.IndexAddr:
-		return p.Path(x.X) + "[" + p.Path(x.Index) + "]"
+		base := p.Path(x.X)
+		if i := trailingOpenSlice(base); i >= 0 {
+			if k, okK := ConstInt(x.Index); okK {
+				var a int64
+				fmt.Sscanf(base[i+1:], "%d:]", &a)
+				return fmt.Sprintf("%s[%d]", base[:i], a+k)
+			}
+		}
+		return base + "[" + p.Path(x.Index) + "]"
 	case *ssa.Index:
 		return p.Path(x.X) + "[" + p.Path(x.Index) + "]"
 	case *ssa.Lookup:
@@ -384,6 +419,27 @@ func (p *Pather) arrayLit(a *ssa.Alloc) (string, bool) {
 	return "[" + strings.Join(parts, ",") + "]", true
 }
 
+// trailingOpenSlice returns the index of the '[' of a trailing "[<int>:]" or -1.
+func trailingOpenSlice(s string) int {
+	if !strings.HasSuffix(s, ":]") {
+		return -1
+	}
+	i := strings.LastIndexByte(s, '[')
+	if i < 0 {
+		return -1
+	}
+	mid := s[i+1 : len(s)-2]
+	if mid == "" {
+		return -1
+	}
+	for _, r := range mid {
+		if r < '0' || r > '9' {
+			return -1
+		}
+	}
+	return i
+}
+
 func allocName(a *ssa.Alloc) string {
 	// locals are named by type + ordinal among same-typed allocs, not by identifier
 	fn := a.Parent()
@@ -479,6 +535,18 @@ func EventPaths(fn *ssa.Function, ev func(ssa.Instruction) string, loopVisits, c
 // `br` names (non-empty), the event "<name>=T" or "<name>=F" is recorded
 // according to the successor taken.
 func EventPathsB(fn *ssa.Function, ev func(ssa.Instruction) string, br func(ssa.Value) string, loopVisits, cap int) (paths [][]string, ok bool) {
+	return EventPathsS(fn, nil, ev, br, loopVisits, cap)
+}
+
+// EventPathsS is EventPathsB with path-sensitive forwarding of stores to
+// address-taken locals: when p is non-nil, loads of a local alloc are rendered as
+// the value last stored on the current path.
+func EventPathsS(fn *ssa.Function, p *Pather, ev func(ssa.Instruction) string, br func(ssa.Value) string, loopVisits, cap int) (paths [][]string, ok bool) {
+	env := map[*ssa.Alloc]string{}
+	if p != nil {
+		p.Loads = map[*ssa.UnOp]string{}
+		defer func() { p.Loads = nil; p.ResetMemo() }()
+	}
 	if len(fn.Blocks) == 0 {
 		return nil, true
 	}
@@ -494,7 +562,45 @@ func EventPathsB(fn *ssa.Function, ev func(ssa.Instruction) string, br func(ssa.
 		visits[b]++
 		n0 := len(cur)
 		exit := false
+		var savedEnv map[*ssa.Alloc]string
+		var savedLoads []*ssa.UnOp
+		if p != nil {
+			savedEnv = make(map[*ssa.Alloc]string, len(env))
+			for k, v := range env {
+				savedEnv[k] = v
+			}
+		}
+		defer func() {
+			if p != nil {
+				for k := range env {
+					delete(env, k)
+				}
+				for k, v := range savedEnv {
+					env[k] = v
+				}
+				for _, l := range savedLoads {
+					delete(p.Loads, l)
+				}
+				p.ResetMemo()
+			}
+		}()
 		for _, in := range b.Instrs {
+			if p != nil {
+				switch x := in.(type) {
+				case *ssa.UnOp:
+					if a, isA := x.X.(*ssa.Alloc); isA && x.Op == token.MUL {
+						if sv, has := env[a]; has {
+							p.Loads[x] = sv
+							savedLoads = append(savedLoads, x)
+							p.ResetMemo()
+						}
+					}
+				case *ssa.Store:
+					if a, isA := x.Addr.(*ssa.Alloc); isA {
+						env[a] = p.Path(x.Val)
+					}
+				}
+			}
 			if e := ev(in); e != "" {
 				cur = append(cur, e)
 			}
